@@ -21,7 +21,7 @@ ASSUMPTIONS = ['sessions start and warm-up lengths are aligned to every route ti
                'inside a fill hook the newest 1m row may be the partial candle (same timestamp and open, close = fill price)']
 MIN_OBS = {'array_comparisons': 10000, 'forming_comparisons': 2000, 'comparisons_after_midwindow_fill': 300,
            'fast_comparisons': 2000, 'stored_1m_checks': 2000, 'helper_cases': 200,
-           'callbacks_of_market_orders_run_inside_a_chunk': 100, 'tf:1M': 200, 'tf:1W': 200, 'tf:3D': 200, 'tf:1D': 200}
+           'callbacks_of_market_orders_run_inside_a_chunk': 100, 'hooks_inside_a_liquidation': 50, 'tf:1M': 200, 'tf:1W': 200, 'tf:3D': 200, 'tf:1D': 200}
 
 SHARD_TIMEOUT = 3600      # generous wall-clock watchdog (its firing is INCONCLUSIVE, never a verdict)
 
@@ -65,6 +65,8 @@ def monitor(strategy, hook, ev):
     from ..tracer import TR
     fill_hook = TR.in_match > 0          # hooks that run while the matching of a minute/chunk is in progress
     fast = ctx['fast']
+    if TR.in_liq > 0:
+        c('hooks_inside_a_liquidation')
     if fast and fill_hook and hook == 'on_increased_position' and strategy.s.get('on_reduced') == 'add_market' \
             and strategy.timeframe != '1m':
         c('callbacks_of_market_orders_run_inside_a_chunk')
@@ -240,6 +242,13 @@ def run_job(job):
             r['script']['p_enter'] = 0.05
         for cs_ in spec['candles'].values():
             cs_['t0'] = 89 * 302400 * 60000      # a session start aligned to the 3D, 1W and 1M (30-day) windows as well
+    if job.get('liq'):
+        # isolated margin at high leverage without stops: positions end in forced closes, whose callbacks read candles too (the
+        # liquidation check runs at the end of a minute / chunk, before the strategies are executed)
+        spec['config'] = {'starting_balance': 10000, 'fee': 0.0005, 'type': 'futures', 'futures_leverage': rng.choice([20, 50]),
+                          'futures_leverage_mode': 'isolated'}
+        for r in spec['routes']:
+            r['script'].update(sl=None, entry='market', p_enter=0.5, on_reduced=None)
     if job.get('no_warm'):
         spec['warmup'] = 0
     if job.get('cb_market'):
@@ -316,7 +325,7 @@ def make_jobs(tier, seed):
     rng = random.Random(70000 + seed)
     n = 260 if tier == 'quick' else 5000
     jobs = [{'kind': 'session', 'seed': rng.randrange(1 << 30), 'i': i, 'big': (i % 10 == 9),
-             'no_warm': (i % 5 == 0), 'logs': (i % 6 == 2), 'cb_market': (i % 5 == 3)} for i in range(n)]
+             'no_warm': (i % 5 == 0), 'logs': (i % 6 == 2), 'cb_market': (i % 5 == 3), 'liq': (i % 10 == 7)} for i in range(n)]
     for i in range(2 if tier == 'quick' else 8):
         jobs.insert(0, {'kind': 'session', 'seed': rng.randrange(1 << 30), 'i': 100000 + i, 'huge': True, 'fast': i % 2 == 0,
                         'big': False, 'no_warm': True, 'logs': False, 'cb_market': False})
